@@ -22,6 +22,7 @@ import (
 	"fmt"
 	"sync"
 	"sync/atomic"
+	"time"
 
 	"github.com/mattn/go-sqlite3"
 	"go.uber.org/zap"
@@ -47,6 +48,16 @@ type verifFaultCtl struct {
 	// afterCommit: the countdown starts only after the first Commit since Arm
 	afterCommit bool
 	commits     int
+	// transient mode: a list of countdowns; the call at which the first one reaches zero fails
+	// with "database is locked", the next countdown starts at the call after it, and so on.
+	// [k] = the k-th call, once; [k,0,0] = the k-th call and the next two calls (the Begin of
+	// the next two attempts); [k,k,k] = the k-th call of three attempts in a row (for an
+	// operation that is one transaction).
+	plan      []int
+	planFired int
+	// result: what the operation under test returned besides its error (set by the operation)
+	result string
+	slow   time.Duration
 }
 
 // Arm starts recording; the failAt-th eligible call (0-based) fails with the given kind.
@@ -55,7 +66,25 @@ func (c *verifFaultCtl) Arm(failAt, kind int) {
 	defer c.mu.Unlock()
 	c.armed, c.failAt, c.kind, c.n, c.fired = true, failAt, kind, 0, false
 	c.afterCommit, c.commits = false, 0
+	c.plan, c.planFired = nil, 0
+	c.slow = 0
 	c.trace = c.trace[:0]
+}
+
+// ArmTransient starts recording; the calls selected by plan (see verifFaultCtl.plan) fail with
+// the error Store.transaction treats as retryable.
+func (c *verifFaultCtl) ArmTransient(plan []int) {
+	c.Arm(-1, verifFaultNone)
+	c.mu.Lock()
+	c.plan = append([]int(nil), plan...)
+	c.mu.Unlock()
+}
+
+// TransientFired: how many of the planned transient faults were injected.
+func (c *verifFaultCtl) TransientFired() int {
+	c.mu.Lock()
+	defer c.mu.Unlock()
+	return c.planFired
 }
 
 // ArmAfterCommit fails the j-th eligible call that follows the first successful Commit.
@@ -87,32 +116,60 @@ func (c *verifFaultCtl) External(failed bool) {
 	}
 }
 
-// hit records an eligible call and says whether it has to fail.
+// hit records an eligible call and says whether it has to fail.  With SetSlow the failing
+// call takes that long before it returns its error (a call that waited for a lock).
 func (c *verifFaultCtl) hit(ev byte) error {
+	err, delay := c.hitLocked(ev)
+	if err != nil && delay > 0 {
+		time.Sleep(delay)
+	}
+	return err
+}
+
+func (c *verifFaultCtl) hitLocked(ev byte) (error, time.Duration) {
 	c.mu.Lock()
 	defer c.mu.Unlock()
 	if !c.armed {
-		return nil
+		return nil, 0
 	}
 	if c.afterCommit && c.commits == 0 {
 		if ev == 'C' {
 			c.commits++
 		}
 		c.trace = append(c.trace, ev)
-		return nil
+		return nil, 0
 	}
 	idx := c.n
 	c.n++
+	if len(c.plan) > 0 {
+		if c.plan[0] == 0 {
+			c.plan = c.plan[1:]
+			c.planFired++
+			c.fired = true
+			c.trace = append(c.trace, ev+('a'-'A'))
+			return errVerifBusy, c.slow
+		}
+		c.plan[0]--
+		c.trace = append(c.trace, ev)
+		return nil, 0
+	}
 	if !c.fired && c.failAt >= 0 && idx == c.failAt && c.kind != verifFaultNone {
 		c.fired = true
 		c.trace = append(c.trace, ev+('a'-'A'))
 		if c.kind == verifFaultBusy {
-			return errVerifBusy
+			return errVerifBusy, c.slow
 		}
-		return errVerifInjected
+		return errVerifInjected, c.slow
 	}
 	c.trace = append(c.trace, ev)
-	return nil
+	return nil, 0
+}
+
+// SetSlow (after Arm/ArmTransient): injected failures take d before they return.
+func (c *verifFaultCtl) SetSlow(d time.Duration) {
+	c.mu.Lock()
+	c.slow = d
+	c.mu.Unlock()
 }
 
 func (c *verifFaultCtl) note(ev byte) {
